@@ -47,9 +47,16 @@ def setup():
     return 0
 
 
-EXTRA = {}
-REPLAY = {}
-SETUP = []
+from . import checks2, checks3
+
+EXTRA = {
+    'C03': lambda tier, seed: checks2.run_ledger_check('C03', tier, seed),
+    'C17': lambda tier, seed: checks2.run_ledger_check('C17', tier, seed),
+    'C19': checks2.run_c19,
+    'C13': checks3.run_c13,
+}
+REPLAY = {'c13': checks3.replay_c13}
+SETUP = [checks2.setup, checks3.setup]
 
 
 def claimed():
